@@ -95,4 +95,28 @@ CHECKS = {
         "text": "For each of the 346 parsable corpus reactions and every member of the transformation families: CanonRSMI (wl and nauty) must return a parsable reaction with the same unmapped sides whose RDKit-built mapped reaction graph is isomorphic to the input's, be a fixed point, and give one output for all numberings/atom orders when all reactant atoms are distinguishable; Standardize.fit must be idempotent and invariant; AAMValidator.smiles_check must accept every renumbering (RC and ITS mode) and reject every exchange of two centre atoms that differ on both sides; rsmi_balance_check must agree with atom-by-atom counts on the reaction and on every delete/duplicate-a-fragment and add-a-proton variant.",
         "note": "'Distinguishable' is read per back-end (exact: trivial automorphism group; 3-iteration refinement: pairwise different radius-3 neighbourhoods) so that the wl back-end is not asked for more than a refinement of that depth can deliver.",
     },
+    "C03": {
+        "ready": True, "engine": "E1",
+        "technique": "exhaustive enumeration over the finite (template, substrate) product drawn from the corpora x direction x strategy; every output judged by RDKit (substrate, balance) and by an independent changed-bond-graph isomorphism",
+        "text": "Every usable corpus reaction (118) is applied with its own centre and full-ITS template, forwards and backwards, strategies all/comp/bt, and every centre template to substrates of other reactions (quick 4, thorough 25 each): each emitted reaction must have the substrate unchanged on the correct side, conserve all elements incl. hydrogen and charge (for rules that are themselves conserving), and each emitted ITS graph must change exactly the template's bonds: its changed-bond graph (order change per bond, element and hydrogen change per end atom) is isomorphic to the one the harness computes from the template's source reaction with RDKit.",
+        "note": "Finite given set (corpora). Explicit-H corpus uses the default H mode, implicit-H corpus implicit_temp. Pairs with no output are counted, not judged (that is C04's business).",
+    },
+    "C04": {
+        "ready": True, "engine": "E1",
+        "technique": "exhaustive enumeration of every precondition-passing corpus reaction x template kind x direction x strategy x renumbering / rewriting variants; RDKit-only standardised reaction must be among the outputs",
+        "text": "For each of the 118 corpus reactions that satisfy the well-formedness precondition (decided from the input with RDKit), the centre and full-ITS template extracted from the reaction - and from each renumbered / re-rooted / fragment-reordered variant of it - is applied to the unmapped reactants (forwards) and products (backwards); the RDKit-canonical reaction must be among the canonicalised outputs.",
+        "note": "Known finding D8 (multi-component centre patterns lose the reaction under some numberings / atom orders) is matched as an input class. Strategy comp is exempt when the substrate has spectator fragments (documented component-count rule).",
+    },
+    "C05": {
+        "ready": True, "engine": "E1+E3(order)",
+        "technique": "metamorphic exhaustive enumeration: every corpus pair x template renumberings x substrate rewritings x repeated calls x strategies; result sets compared",
+        "text": "For every usable corpus reaction with its own centre template, forwards and backwards: the set of distinct (RDKit-canonical) reactions is computed under 8 (thorough: all) template renumberings, every substrate re-rooting and fragment order tried, repeated calls on the same and on a fresh reactor, and the three strategies; all sets must coincide, comp must be a subset of all, bt must equal comp when non-empty and all otherwise.",
+        "note": "Known finding D8 matched as an input class (multi-component patterns).",
+    },
+    "C11": {
+        "ready": True, "engine": "E1",
+        "technique": "bounded-exhaustive enumeration of small labelled graphs (connected, disconnected, symmetric) vs. brute-force automorphisms; match lists through the de-duplicator; rule applications with pruning on vs. every raw match glued",
+        "text": "(a) Automorphism counts and orbits of every connected class representative with <=4 atoms (thorough 5), every disconnected pair with <=5 (6) atoms incl. isomorphic components, and symmetric families equal brute-force enumeration per component; the WL estimate never splits a true orbit. (b) deduplicate_matches_with_anchor returns an order-preserving non-empty sub-list for every (host, pattern) pair with >=2 matches under exact, estimated, host and combined orbits. (c) For every corpus pair and for the synthetic two-component family X-Y + C=C (all X,Y, all numberings and component orders of the rule, six substrates), the set of distinct reactions with pruning equals the set obtained by gluing every raw match (pruning switched off by rebinding the module-level name).",
+        "note": "Known finding D8 (clause c) matched as an input class: patterns with >=2 components.",
+    },
 }
